@@ -13,6 +13,10 @@ inline void use()
 	table.Add(std::move(row));
 	Table::Row row3 = table.NewRow(colInt = 5);   // pvNewRow (catch path: pvDestroyRaw)
 	Table::Row row2 = table.Extract(0);   // pvMakeRow; ~DataRow at scope exit
+	table.Remove(size_t(0), true);        // Remove(rowNumber): pvDestroyRaw(pvExtractRaw(..))
 	table.Clear();                        // pvDestroyRaws -> pvDeallocateFreeRaws
+	Table table2(std::move(table));       // DataTable(DataTable&&)
+	table.Swap(table2);                   // DataTable::Swap
+	table2 = std::move(table);            // operator=(DataTable&&)
 }
 }
